@@ -150,6 +150,12 @@ func c03(c *Ctx) {
 		c.ruleOrder(r, f, "cLog.SetOffset", callTo(appSetOff+"@cLog"), "cLog.Append", callTo(appAppend+"@cLog"), nil, 1)
 		c.neverAfter(r, f, "cLog.Append", callTo(appAppend+"@cLog"), "cLog.Flush", callTo(appFlush+"@cLog"))
 		c.ruleOrder(r, f, "cLog.Sync", callTo(appSync+"@cLog"), "store committedAlh", storeTo("ImmuStore.committedAlh"), nil, 1)
+		// the whole durability sequence runs inside the commit-state critical section: the set of txs whose
+		// values were flushed is the set that gets committed
+		for _, st := range []step{{"vLog.Flush+Sync", vlogFS}, {"txLog.Flush", callTo(appFlush + "@txLog")}, {"txLog.Sync", callTo(appSync + "@txLog")},
+			{"cLog.Append", callTo(appAppend + "@cLog")}, {"cLog.Sync", callTo(appSync + "@cLog")}} {
+			c.ruleHeldAt("C03.1/sync-critical-section", f, st.name, st.p, "ImmuStore.commitStateRWMutex", true, nil)
+		}
 		// value logs: flushed+fsynced inside the per-vLog closure, never after the tx/commit log writes
 		c.neverAfter(r, f, "vLog.Flush+Sync", vlogFS, "txLog.Sync", callTo(appSync+"@txLog"))
 		c.neverAfter(r, f, "vLog.Flush+Sync", vlogFS, "cLog.Append", callTo(appAppend+"@cLog"))
